@@ -88,3 +88,21 @@ Print Assumptions C18_code_handle_timeout_tie.
 
 
 Close Scope N_scope.
+
+(* ---- tie to the code: ServerConfig.get_location_router - every proxy location gets its own handler, built from that location's upstream, prefix, strip_prefix and timeout (coq/Equiv/EquivWiring.v): re-checked here against the definitions regenerated from /repo's working tree; see DESIGN.md 11.8 ---- *)
+From NV Require Equiv.EquivWiring.
+Theorem C18_code_location_router_tie : ltac:(let t := type of @EquivWiring.location_router_tie in exact t).
+Proof. exact (@EquivWiring.location_router_tie). Qed.
+Print Assumptions C18_code_location_router_tie.
+
+Theorem C18_code_routes_of_each : ltac:(let t := type of @EquivWiring.routes_of_each in exact t).
+Proof. exact (@EquivWiring.routes_of_each). Qed.
+Print Assumptions C18_code_routes_of_each.
+
+Theorem C18_code_handler_of_injective : ltac:(let t := type of @EquivWiring.handler_of_injective in exact t).
+Proof. exact (@EquivWiring.handler_of_injective). Qed.
+Print Assumptions C18_code_handler_of_injective.
+
+Theorem C18_code_proxy_location_url : ltac:(let t := type of @EquivWiring.proxy_location_url in exact t).
+Proof. exact (@EquivWiring.proxy_location_url). Qed.
+Print Assumptions C18_code_proxy_location_url.
